@@ -69,6 +69,8 @@ val last : 'a1 list -> 'a1 -> 'a1
 
 val rev : 'a1 list -> 'a1 list
 
+val rev_append : 'a1 list -> 'a1 list -> 'a1 list
+
 val concat : 'a1 list list -> 'a1 list
 
 val map : ('a1 -> 'a2) -> 'a1 list -> 'a2 list
@@ -1491,6 +1493,9 @@ val check_proof :
   -> bool) -> known_table -> ((z * bytes0) -> exec_result) -> (bytes0 -> bool
   res) -> (bytes0 -> bool res) -> z -> z -> proof -> bytes0 res
 
+val run_history :
+  ('a1 -> 'a2 -> 'a1 * 'a3) -> 'a1 -> 'a2 list -> 'a1 * 'a3 list
+
 val dec_digits : nat -> z -> bytes0 -> bytes0
 
 val print_int : z -> bytes0
@@ -1542,6 +1547,8 @@ val run_stateinit : sx -> sx
 val proof_of_sx : sx -> proof option
 
 val run_check : sx -> sx
+
+val run_hist : sx -> sx
 
 val nominal_now : z
 
@@ -2115,6 +2122,43 @@ val client_session :
   list -> n list -> n list -> n list -> (n list * n list) list -> reader ->
   client_run
 
+type msg0 = n list * n list
+
+type phase =
+| PLocked of msg0
+| PUnlocked of msg0
+| PEnc of n list
+| PWrote
+
+type action =
+| ALock
+| AEncrypt
+| AWrite
+| AUnlock
+
+type 'cstate csys = { cs_queues : msg0 list list;
+                      cs_active : (nat * phase) list; cs_owner : nat option;
+                      cs_tx : 'cstate; cs_wire : n list;
+                      cs_log : (nat * msg0) list }
+
+val alookup : nat -> (nat * phase) list -> phase option
+
+val aremove : nat -> (nat * phase) list -> (nat * phase) list
+
+val aset : nat -> phase -> (nat * phase) list -> (nat * phase) list
+
+val qpop : nat -> msg0 list list -> (msg0 * msg0 list list) option
+
+val cstep :
+  (n list -> n list) -> ('a1 -> n * 'a1) -> bool -> nat -> action -> 'a1 csys
+  -> 'a1 csys option
+
+val crun :
+  (n list -> n list) -> ('a1 -> n * 'a1) -> bool -> (nat * action) list ->
+  'a1 csys -> (bool * n) list -> 'a1 csys * (bool * n) list
+
+val cinit : 'a1 -> msg0 list list -> 'a1 csys
+
 type ks = n list
 
 val ks_next : ks -> n * ks
@@ -2140,6 +2184,18 @@ val run_recv : sx -> sx
 val cut : sx list -> n list -> reader
 
 val run_session : sx -> sx
+
+val sched_of : sx -> (nat * action) list option
+
+val queues_of : sx -> (n list * n list) list list option
+
+val run_csend : sx -> sx
+
+val group_by_sender : nat -> (n list * n list) list -> sx list
+
+val run_conc : sx -> sx
+
+val run_stress : sx -> sx
 
 val imm_of : (bytes -> bytes) -> cell -> imm res
 
@@ -2210,7 +2266,7 @@ val parse_maybe_cell : slc0 -> (cell option * slc0) res
 
 val parse_state_init0 : oracle -> slc0 -> (state_init * slc0) res
 
-type msg0 = { m_info : info; m_init : (bool * state_init) option;
+type msg1 = { m_info : info; m_init : (bool * state_init) option;
               m_body_ref : bool; m_body : (bits * cell list); m_hash : 
               bytes }
 
@@ -2218,7 +2274,7 @@ val parse_message :
   oracle -> slc0 -> (((info * (bool * state_init)
   option) * bool) * (bits * cell list)) res
 
-val decode_message_gen : oracle -> bytes res -> cell -> msg0 res
+val decode_message_gen : oracle -> bytes res -> cell -> msg1 res
 
 type wst = bits * bool
 
@@ -2242,16 +2298,16 @@ val norm_info_bits : addr -> bits
 
 val norm_cell : addr -> (bits * cell list) -> cell res
 
-val msg_hash : (bytes -> bytes) -> bool -> msg0 -> bytes res
+val msg_hash : (bytes -> bytes) -> bool -> msg1 -> bytes res
 
 type tx = { tx_hash : bytes; tx_src : cell; tx_account : bits; tx_lt : 
             n; tx_prev_hash : bits; tx_prev_lt : n; tx_now : n;
             tx_outmsg_cnt : n; tx_orig : n; tx_end : n;
-            tx_in_msg : msg0 option; tx_out_msgs : cell option; tx_fees : 
+            tx_in_msg : msg1 option; tx_out_msgs : cell option; tx_fees : 
             n }
 
 val parse_in_msg :
-  oracle -> (cell -> bytes res) -> slc0 -> (msg0 option * slc0) res
+  oracle -> (cell -> bytes res) -> slc0 -> (msg1 option * slc0) res
 
 val decode_tx_gen :
   oracle -> bytes res -> (cell -> bytes res) -> cell -> tx res
@@ -2274,7 +2330,7 @@ val info_dest : info -> addr
 
 val addr_sx : addr -> sx
 
-val msg_sx : msg0 -> sx
+val msg_sx : msg1 -> sx
 
 val with_root0 :
   sx -> (oracle -> node list -> nat -> cell -> imm res list -> sx) -> sx
@@ -2811,6 +2867,10 @@ val from_fift_str : str -> bits res
 
 val print_bitstring : bits -> str
 
+val print_bitstring_bs : bs -> str res
+
+val written_bs : bits -> nat -> bs
+
 val parse_bitstring : str -> bits res
 
 type anycast = (n * n) option
@@ -2918,6 +2978,8 @@ val all_bytes : bytes1 -> bool
 
 val split_at : nat -> bytes1 -> (bytes1 * bytes1) option
 
+val shortN : n -> 'a1 list -> bool
+
 val split_atN : n -> bytes1 -> (bytes1 * bytes1) option
 
 val pad_of : n -> nat
@@ -2943,6 +3005,8 @@ val enc_list : (value0 -> bytes1 option) -> value0 list -> bytes1 option
 val dec_pos :
   (bytes1 -> (value0 * bytes1) option) -> positive -> value0 list -> bytes1
   -> (value0 list * bytes1) option
+
+val frev : 'a1 list -> 'a1 list
 
 val dec_count :
   (bytes1 -> (value0 * bytes1) option) -> n -> bytes1 -> (value0
@@ -3219,19 +3283,129 @@ val k_PRUNED : n
 
 val k_LIBRARY : n
 
-type xs = { xb : bits; xr : xtree list }
-
-val xtake_bits : nat -> xs -> (bits * xs) res
-
-val xtake_ref : xs -> (xtree * xs) res
-
-val enter : xtree -> bool -> xs option res
-
 val xunary : nat -> bits -> bits res
 
-val xdec0 : ty list -> nat -> ty -> xs -> n -> (xs * n) res
+type ct = { c_steps : n; c_alloc : n }
 
-val xunmarshal : ty list -> nat -> ty -> xtree -> (xs * n) res
+val tickc : ct -> ct
+
+val chg : n -> ct -> ct
+
+type ys = { yk : n; yb : bits; yr : xtree list }
+
+val cell_of0 : ys -> xtree
+
+val slice_of : xtree -> ys
+
+type 'a yres = 'a res * ct
+
+val yret : 'a1 -> ct -> 'a1 yres
+
+val yerr : n -> ct -> 'a1 yres
+
+val ybind : 'a1 yres -> ('a1 -> ct -> 'a2 yres) -> 'a2 yres
+
+val ylift : 'a1 res -> ct -> 'a1 yres
+
+val ytake_bits : nat -> ys -> (bits * ys) res
+
+val ytake_ref : ys -> (xtree * ys) res
+
+val kind_of : xtree -> n
+
+val is_lib : n -> bool
+
+val is_pruned0 : n -> bool
+
+val vM_VALUE_SIZE : n
+
+val vm_cellslice : ys -> ys res
+
+val vmw : n option -> xtree -> ct -> ys yres
+
+val vm_value : ys -> ct -> ys yres
+
+val vm_tuple : ys -> ct -> ys yres
+
+val vm_list : xtree -> n -> ct -> (n * ys) yres
+
+val vm_stack : ys -> ct -> ys yres
+
+val grams : ys -> ys res
+
+val snake : xtree -> ct -> (n * ys) yres
+
+val fixed_text : ys -> ys res
+
+val snake_bits : xtree -> bits
+
+val bits_bytes1 : nat -> bits -> n list
+
+val u8in : n -> n -> n -> bool
+
+val u8c : n -> bool
+
+val utf8_valid : n list -> bool
+
+val bt_tree : xtree -> ct -> ys list yres
+
+val bt_leaves : (ys -> ct -> ys yres) -> ys list -> ys -> ct -> ys yres
+
+val fork_charge : nat -> n
+
+val leaf_charge : nat -> n -> n
+
+val with_extra : (ys -> ct -> ys yres) option -> ys -> ct -> ys yres
+
+val hm_tree :
+  (ys -> ct -> ys yres) -> (ys -> ct -> ys yres) option -> nat -> n -> nat ->
+  xtree -> nat -> ct -> ys yres
+
+val hm_decode :
+  (ys -> ct -> ys yres) -> (ys -> ct -> ys yres) option -> nat -> n -> ys ->
+  ct -> ys yres
+
+type yty =
+| YUint of nat
+| YInt of nat
+| YBigUint of nat
+| YBigInt of nat
+| YBool
+| YBits of nat
+| YVarUInt of nat
+| YUnary
+| YMagic of nat * n
+| YMaybe of yty
+| YEither of yty * yty
+| YEitherRef of yty
+| YRef of yty
+| YMaybeRef of yty
+| YStruct of yty list
+| YSum of ((nat * n) * yty) list
+| YAny
+| YCellRef
+| YAddr
+| YNamed of nat
+| YGrams
+| YSnake
+| YBytes
+| YFixedText
+| YHashmap of nat * n * yty
+| YHashmapAug of nat * n * yty * yty
+| YVmStack
+| YVmValue
+| YVmTuple
+| YCellSlice
+| YFail
+| YRawCell
+| YText
+| YBinTree of n * yty
+
+val sub_slice : xtree -> bool -> ys option
+
+val ydec : yty list -> nat -> yty -> ys -> ct -> ys yres
+
+val yunmarshal : yty list -> nat -> yty -> xtree -> ys yres
 
 val eFrame : n
 
@@ -3278,7 +3452,7 @@ val basic_ty : string -> gty option
 
 val run_tl0 : sx -> sx
 
-val ty_of_sx : nat -> sx -> ty option
+val yty_of_sx : nat -> sx -> yty option
 
 val xtree_of_sx : nat -> sx -> xtree option
 
@@ -3289,6 +3463,10 @@ val out_unit0 : unit res -> sx
 val run_declen : sx -> sx
 
 val run_answer : sx -> sx
+
+val cls : 'a1 res -> sx
+
+val run_answer2 : sx -> sx
 
 val run_packet : sx -> sx
 
@@ -3319,6 +3497,27 @@ val single : schema0 -> decl -> bool
 val go_naming : schema0 -> naming
 
 val cname : decl -> string
+
+val hand_account_marshal : n -> bytes1 -> bytes1
+
+val hand_account_unmarshal : bytes1 -> ((n * bytes1) * bytes1) option
+
+val hand_blockidext_marshal : n -> n -> n -> bytes1 -> bytes1 -> bytes1
+
+val hand_blockidext_unmarshal :
+  bytes1 -> ((((n * n) * n) * bytes1) * bytes1) option
+
+val hand_blockid_marshal : n -> n -> n -> bytes1
+
+val hand_blockid_unmarshal : bytes1 -> (((n * n) * n) * bytes1) option
+
+val val_account_id : n -> bytes1 -> value0
+
+val val_block_id : n -> n -> n -> value0
+
+val val_block_id_ext : n -> n -> n -> bytes1 -> bytes1 -> value0
+
+val hand_vmstack_unframe : bytes1 -> bytes1 res * st
 
 val tl_types : decl list
 
@@ -3385,6 +3584,26 @@ val run_enclen : sx -> sx
 val run_sizeof : sx -> sx
 
 val run_camel : sx -> sx
+
+val desc_of_sx : sx -> (gty * ty0) option
+
+val run_bmarshal : sx -> sx
+
+val run_bunmarshal : sx -> sx
+
+val check_enc : string -> value0 -> bytes1 -> sx
+
+val dec_agrees : string -> bytes1 -> value0 -> bytes1 -> bool
+
+val hand_account : sx list -> sx
+
+val hand_blockid : sx list -> sx
+
+val hand_blockidext : sx list -> sx
+
+val hand_vmstack : sx list -> sx
+
+val run_hand : sx -> sx
 
 val boc_size_limit : z
 
@@ -3676,7 +3895,12 @@ type acct =
 | AFrozen
 | AActive of cell
 
-val hashmap_e_ok : nat -> nat -> bits -> cell list -> unit res
+val dict_keys : nat -> nat -> bits -> cell list -> bits list res
+
+type wdata = { wd_seqno : n; wd_id : n; wd_pk : bits; wd_flag : bool;
+               wd_extra : n; wd_keys : bits list }
+
+val decode_data : version -> cell -> wdata res
 
 val seqno_of_data : version -> cell -> n res
 
@@ -3704,6 +3928,8 @@ val run_addr0 : sx -> sx
 
 val acct_of_sx : sx -> acct option option
 
+val data_sx : version -> acct -> sx
+
 val run_next : sx -> sx
 
 val hist_of_sx : z -> nat -> z -> sx list -> n option -> poll list
@@ -3711,5 +3937,56 @@ val hist_of_sx : z -> nat -> z -> sx list -> n option -> poll list
 val sent_sx : version -> cell -> sx
 
 val run_send15 : sx -> sx
+
+type cache = (nat * imm) list
+
+val cache_get : (nat * 'a1) list -> nat -> 'a1 option
+
+val refs_loop :
+  (cache -> nat -> cache * imm res) -> cache -> nat list -> cache * imm list
+  res
+
+val half_built : node -> imm
+
+val new_imm_gen :
+  (bytes -> bytes) -> bool -> node list -> nat -> cache -> nat -> cache * imm
+  res
+
+type hasher = { h_cache0 : cache; h_hex : (nat * bytes) list }
+
+val new_hasher : hasher
+
+val hasher_hash :
+  (bytes -> bytes) -> bool -> node list -> hasher -> nat -> hasher * bytes res
+
+val hasher_hash_string :
+  (bytes -> bytes) -> bool -> node list -> hasher -> nat -> hasher * bytes res
+
+type hop =
+| OpHash of nat
+| OpHashString of nat
+
+val hasher_step :
+  (bytes -> bytes) -> bool -> node list -> hasher -> hop -> hasher * bytes res
+
+val hasher_run :
+  (bytes -> bytes) -> bool -> node list -> hasher -> hop list -> bytes res
+  list
+
+val hop_of_sx : sx -> hop option
+
+val hops_of_sx : sx list -> hop list option
+
+val run_history0 : sx -> sx
+
+val row_of : n -> imm -> sx
+
+val rows_of : cell -> (imm * sx list) res
+
+val sx_rows : cell res -> sx
+
+val run_built : sx -> sx
+
+val run_built_key : sx -> sx
 
 val run : string -> sx -> sx
